@@ -262,6 +262,14 @@ class Impl(object):
             self.t = Traph(folder=self.folder, default_webentity_creation_rule=self.dflt,
                            webentity_creation_rules=self.rules)
             return "ok"
+        if op == "overwrite":
+            # close, then construct again on the same folder (or in memory) with overwrite=True: a fresh index
+            self.close()
+            self.dflt = RULES[w[1]]
+            self.rules = parse_rules(w[2])
+            self.t = Traph(folder=self.folder, overwrite=True, default_webentity_creation_rule=self.dflt,
+                           webentity_creation_rules=self.rules)
+            return "ok"
         if op == "clear":
             d = None if w[1] == "-" else RULES[w[1]]
             rs = None if w[2] == "none" else parse_rules(w[2])
@@ -465,6 +473,10 @@ class Impl(object):
             f = t.get_webentity_outlinks if q == "weout" else t.get_webentity_inlinks
             r = f(int(w[1]), unx_arg_list(w[2]))
             return "ok " + brack([str(x) for x in sorted(0 if x is None else x for x in r)])
+        if q == "wedeg":
+            ps = unx_arg_list(w[2])
+            return "ok " + brack([str(t.get_webentity_indegree(int(w[1]), ps)), str(t.get_webentity_outdegree(int(w[1]), ps)),
+                                  str(t.get_webentity_degree(int(w[1]), ps))])
         if q == "pagelinksof":
             r = t.get_page_links(unx_arg(w[1]), include_inbound=(w[2] == "1"), include_internal=(w[3] == "1"),
                                  include_outbound=(w[4] == "1"))
